@@ -110,11 +110,29 @@ bool World::open_file(int m, bool create) {
     }
 }
 
-static void keep_one(World &w, Kept k) { k.session = w.session; if (w.kept.size() < 64) w.kept.push_back(k); }
+static void keep_one(World &w, Kept k, size_t cap = 64) { k.session = w.session; if (w.kept.size() < cap) w.kept.push_back(k); }
 
 void World::gather_handles(uint64_t sub) {
     Rng r(sub);
     if (!is_open) return;
+    if (r.chance(1, 5)) {
+        // a program that holds on to everything: handles to every entity of the file (a few hundred at most) are alive at close
+        try {
+            const size_t cap = 320;
+            cnt.inc("close.hoarded_handles");
+            for (auto &b : f.blocks()) {
+                { Kept k; k.kind = 0; k.block = b; k.id = b.id(); keep_one(*this, k, cap); }
+                for (auto &x : b.dataArrays()) { Kept k; k.kind = 1; k.array = x; k.id = x.id(); keep_one(*this, k, cap); for (auto &d : x.dimensions()) { Kept kd; kd.kind = 10; kd.dim = d; keep_one(*this, kd, cap); } }
+                for (auto &x : b.dataFrames()) { Kept k; k.kind = 2; k.frame = x; k.id = x.id(); keep_one(*this, k, cap); }
+                for (auto &x : b.tags()) { Kept k; k.kind = 3; k.tag = x; k.id = x.id(); keep_one(*this, k, cap); for (auto &ft : x.features()) { Kept kf; kf.kind = 9; kf.feature = ft; keep_one(*this, kf, cap); } }
+                for (auto &x : b.multiTags()) { Kept k; k.kind = 4; k.mtag = x; k.id = x.id(); keep_one(*this, k, cap); }
+                for (auto &x : b.groups()) { Kept k; k.kind = 5; k.group = x; k.id = x.id(); keep_one(*this, k, cap); }
+                for (auto &x : all_sources(b)) { Kept k; k.kind = 6; k.source = x; k.id = x.id(); keep_one(*this, k, cap); }
+            }
+            for (auto &x : all_sections()) { Kept k; k.kind = 7; k.section = x; k.id = x.id(); keep_one(*this, k, cap); for (auto &p : x.properties()) { Kept kp; kp.kind = 8; kp.property = p; kp.id = p.id(); keep_one(*this, kp, cap); } }
+        } catch (const std::exception &) {}
+        return;
+    }
     try {
         { Kept k; k.kind = 12; k.file = f; keep_one(*this, k); }
         ndsize_t nb = f.blockCount();
